@@ -287,6 +287,8 @@ def lift(v, ty=None):
         items = [lift(x) for x in v]
         t = Tup(*[i.ty for i in items])
         return SV(t, t.mk(*[i.z for i in items]))
+    elif type(v).__name__ == 'Unknown' and ty is not None:
+        return fresh(ty, 'unknown')        # unknown state read at a typed position: an arbitrary value of that type
     else:
         raise Unsupported(f'cannot lift {type(v).__name__}')
     if ty is not None and sv.ty != ty:
